@@ -135,7 +135,9 @@ def run(ctx):
             ctx.violation("R08.1", "%s:shape" % fname, f["span"], "UNRECOGNISED: no match on the operator name")
             continue
         m, arms, others = oa
-        ctx.inst("R08.1", "%s:dispatch-on-op-token" % fname, tok_index(m["scrut"]) == 1, m["sp"], "the operator match does not inspect token 1: %s" % show(m["scrut"]))
+        on_tok1 = tok_index(m["scrut"]) == 1 or any(x.get("k") == "match" and tok_index(x["scrut"]) == 1 and any(a_.get("k") == "plit" and a_.get("lk") == "str" for arm_ in x["arms"] for a_ in pat_alts(arm_["pat"]))
+                                                    for x in walk(f["body"]))
+        ctx.inst("R08.1", "%s:dispatch-on-op-token" % fname, on_tok1, m["sp"], "the operator match does not inspect token 1: %s" % show(m["scrut"]))
         # default token count for bin/ternary is the literal in the final Ok((checked, N))
         final_count = None
         tail = strip_try(stmts_of(f["body"])[-1])
@@ -143,7 +145,22 @@ def run(ctx):
             tp = peel(tail["args"][0])
             if tp.get("k") == "tuple" and len(tp["es"]) == 2 and peel(tp["es"][1]).get("k") == "lit":
                 final_count = peel(tp["es"][1])["v"]
-        for op, arm in sorted(arms.items()):
+        setname = {"parse_unary_op": "UNARY_OPS", "parse_bin_op": "BINARY_OPS", "parse_ternary_op": None}[fname]
+        listed = const_strings(ctx, setname) if setname else ["ite", "write"]
+        lowered = set()
+        rows_ = dict(arms)
+        for op in listed:
+            rows_.setdefault(op, None)          # an operator without an arm of its own may be lowered through a lookup (`nand` -> not(and))
+        for op, arm in sorted(rows_.items()):
+            if arm is None:
+                arm = {"sp": f["span"], "body": f["body"]}
+                if op in DOCUMENTED_UNSUPPORTED or op in DATA_DEPENDENT:
+                    continue
+                try:
+                    ex.spec = lambda e_, op=op: op if tok_index(e_) == 1 else None
+                    ex.ev(f["body"], {})
+                except Opaque:
+                    continue                     # no lowering found: reported by R08.4 `has-arm`
             if op in DOCUMENTED_UNSUPPORTED:
                 continue
             if op in DATA_DEPENDENT:
@@ -165,19 +182,19 @@ def run(ctx):
                 got, count = got[1], got[2][1]
             wterm, wcount = want if fname == "parse_unary_op" else (want, 3 + nops)
             n_rows += 1
+            lowered.add(op)
             ok = norm(got) == norm(wterm)
             ctx.inst("R08.1", "%s:%s" % (fname, op), ok, arm["sp"], "btor2 `%s` is lowered to %s, the standard defines it as %s" % (op, fmt(norm(got)), fmt(norm(wterm))),
                      sample={"op": op, "lowering": fmt(got)})
             ctx.inst("R08.1", "%s:%s:token-count" % (fname, op), count == wcount, arm["sp"], "`%s` reports %s consumed tokens, expected %s: the optional name token would be read from the wrong position" % (op, count, wcount), nontrivial=False)
         # R08.4 set vs arms
-        setname = {"parse_unary_op": "UNARY_OPS", "parse_bin_op": "BINARY_OPS", "parse_ternary_op": None}[fname]
         if setname:
             for op in const_strings(ctx, setname):
-                ctx.inst("R08.4", "%s:%s:has-arm" % (setname, op), op in arms, f["span"],
+                ctx.inst("R08.4", "%s:%s:has-arm" % (setname, op), op in arms or op in lowered, f["span"],
                          "`%s` is listed in %s and dispatched to %s, which has no arm for it: the line reaches the generic `panic!(\"unexpected ... op\")` arm" % (op, setname, fname), sample=op)
         else:
             for op in ("ite", "write"):
-                ctx.inst("R08.4", "ternary:%s:has-arm" % op, op in arms, f["span"], "`%s` has no arm in parse_ternary_op" % op)
+                ctx.inst("R08.4", "ternary:%s:has-arm" % op, op in arms or op in lowered, f["span"], "`%s` has no arm in parse_ternary_op" % op)
         r085(ctx, f, fname, m)
     ctx.floor("R08.1", "operator rows compared with the oracle", n_rows, 38)
     dispatcher(ctx)
@@ -207,8 +224,8 @@ def r085(ctx, f, fname, m):
                     src_ok = False
                     if a0.get("k") == "local":
                         d = defs.get(a0["id"])
-                        if d and d[0] == "let" and "init" in d[1] and peel(d[1]["init"]) is m:
-                            src_ok = True
+                        if d and d[0] == "let" and "init" in d[1] and (peel(d[1]["init"]) is m or contains(d[1]["init"], m)):
+                            src_ok = True        # the value lowered by the operator dispatch (directly, or through a lookup around it)
                     tpe_ok = False
                     if a2.get("k") == "local":
                         ti = simple_let_init(defs, a2["id"])
